@@ -73,7 +73,7 @@ pub fn gen(rng: &mut Rng) -> Scn {
 pub fn valid(s: &Scn) -> bool {
     !s.calls.is_empty()
         && s.calls.len() <= 8
-        && s.calls.iter().all(|c| c.start_ms <= 200 && c.timeout_ms <= 200 && c.beh.lat_ms <= 200 && c.beh.yields <= 4 && c.beh.out != Outcome::Panic)
+        && s.calls.iter().all(|c| c.start_ms <= 200 && c.timeout_ms <= 200 && c.beh.lat_ms <= 200 && c.beh.yields <= 4 && !matches!(c.beh.out, Outcome::Panic | Outcome::PanicInCall))
         && s.fixed_timeout.map(|t| t <= 200).unwrap_or(true)
         && s.knobs.jumps.len() <= 3
         && s.knobs.jumps.iter().all(|j| j.0 <= 300 && j.1 <= 200)
